@@ -13,20 +13,20 @@ import (
 )
 
 type FuncResult struct {
-	Name      string
-	Pkg       string
-	Key       string
-	Mode      Mode
-	Obls      []*Obligation
-	Paths     int
-	Err       string
-	Trusted   []string
-	Inlined   []string
-	Vacuity   *Obligation // requires-satisfiable (expects sat)
-	Loops     int
-	Pos       string
-	Used      []string
-	fv        *FV
+	Name    string
+	Pkg     string
+	Key     string
+	Mode    Mode
+	Obls    []*Obligation
+	Paths   int
+	Err     string
+	Trusted []string
+	Inlined []string
+	Vacuity *Obligation // requires-satisfiable (expects sat)
+	Loops   int
+	Pos     string
+	Used    []string
+	fv      *FV
 }
 
 // evalEntry evaluates a contract-language predicate over the function's entry state.
